@@ -120,14 +120,14 @@ class Flow:
             return False
         return True
 
-    def close_freq(self, what, a, b, tol, argv):
+    def close_freq(self, what, a, b, tol, argv, klass="output-differs-from-library"):
         """frequencies: numerically zero modes (acoustic at Gamma, |f| < 1e-4 on both sides) are rounding noise"""
         a, b = np.asarray(a, dtype=float), np.asarray(b, dtype=float)
         if a.shape == b.shape:
             noise = (np.abs(a) < 1e-4) & (np.abs(b) < 1e-4)
             a = np.where(noise, 0.0, a)
             b = np.where(noise, 0.0, b)
-        return self.close(what, a, b, tol, argv)
+        return self.close(what, a, b, tol, argv, klass=klass)
 
     def cmd(self, variant, argv, expect=0, must=()):
         code, out, exc = run_main(variant, argv)
@@ -597,3 +597,133 @@ def fc_calculator_checks(run):
         exp = "ok none" if got is None else "ok %d" % ids[got]
         if ans != exp:
             run.broke("correspondence", "fc-calculator rule: model %r, _get_fc_calculator_params %r" % (ans, got), dict(fc_calculator=fc, fc_symmetry=sym, load=load))
+
+
+# --------------------------------------------------------------------------
+# the calculator is named by the yaml file only (no --qe / --abinit … on the command line)
+# --------------------------------------------------------------------------
+
+def _unit_value(name, PU):
+    """value in eV / Angstrom of a unit name of get_default_physical_units, from the constants of phonopy.units"""
+    atom = {"eV": 1.0, "Ry": PU.Rydberg, "mRy": PU.Rydberg / 1000, "hartree": PU.Hartree, "angstrom": 1.0, "au": PU.Bohr}
+    name = name.replace("Angstrom", "angstrom")
+    top, _, bot = name.partition("/")
+    v = atom[top]
+    if bot:
+        for part in bot.split("."):
+            base, _, pw = part.partition("^")
+            v /= atom[base] ** (int(pw) if pw else 1)
+    return v
+
+
+def calculator_flows(run, tmp, rng, thorough):
+    """One physical crystal (NaCl, pair-potential force constants, Born charges) written in the units of a non-VASP
+    calculator into phonopy_params.yaml (`calculator: qe` …).  `phonopy-load` and the yaml fallback of `phonopy`, run
+    WITHOUT the calculator option, must give the frequencies of the library call on the same file, the same output as
+    with the calculator option repeated, the frequencies of the eV/Angstrom description, and record the calculator's
+    NAC unit-conversion factor in phonopy.yaml."""
+    import phonopy
+    import phonopy.units as PU
+    from phonopy import Phonopy
+    from phonopy.interface.calculator import calculator_info, get_default_physical_units
+    from phonopy.structure.atoms import PhonopyAtoms
+
+    cell, _ = gen.make_cell("nacl_prim")
+    dim = [2, 2, 2]
+    z = 1.0 + rng.randint(1, 6) / 8.0
+    eps = 2.0 + rng.randint(0, 6) / 4.0
+    born = np.array([np.eye(3) * z, -np.eye(3) * z])
+    qtxt = "0.02 0 0 0.01 0.01 0 0.3 0.2 0.1 1/2 0 0"
+    q = np.array([U.fracval(x) for x in qtxt.split()]).reshape(-1, 3)
+    ref = Phonopy(cell, supercell_matrix=np.diag(dim), log_level=0)
+    fc = gen.pair_fc(ref.supercell, cutoff=4.5)
+    ref.force_constants = fc
+    ref.run_qpoints(q)
+    f_plain = ref.get_qpoints_dict()["frequencies"].copy()
+    ref.nac_params = {"born": born, "dielectric": np.eye(3) * eps, "factor": get_default_physical_units(None)["nac_factor"]}
+    ref.run_qpoints(q)
+    f_ref = ref.get_qpoints_dict()["frequencies"].copy()
+    if np.abs(f_ref - f_plain).max() < 1e-2:
+        run.broke("harness", "calculator workflow is vacuous: NAC does not change the reference frequencies")
+    vasp_nac = get_default_physical_units(None)["nac_factor"]
+    others = [c for c in calculator_info if c not in ("qe", "vasp") and get_default_physical_units(c)["nac_factor"] is not None
+              and get_default_physical_units(c)["length_unit"] in ("au", "angstrom", "Angstrom")
+              and abs(get_default_physical_units(c)["nac_factor"] - vasp_nac) > 1e-3]
+    calcs = ["qe"] + ([rng.choice(others)] if not thorough else others)
+    flag_of = {c: calculator_info[c]["option"]["name"] for c in calculator_info}
+    for calc in calcs:
+        u = get_default_physical_units(calc)
+        lenu = _unit_value(u["length_unit"], PU)
+        fcu = _unit_value(u["force_constants_unit"], PU)
+        fl = Flow(run, "units-" + calc, dim, tmp)
+        fl.cell = cell
+        os.chdir(fl.dir)
+        ucell = PhonopyAtoms(cell=cell.cell / lenu, symbols=cell.symbols, scaled_positions=cell.scaled_positions)
+        ph = Phonopy(ucell, supercell_matrix=np.diag(dim), calculator=calc, factor=u["factor"], log_level=0)
+        ph.generate_displacements(distance=0.01 / lenu)
+        sc = ph.supercell
+        forces = [-np.einsum("ijab,jb->ia", fc / fcu, scd.positions - sc.positions) for scd in ph.supercells_with_displacements]
+        ph.forces = forces
+        ph.save("phonopy_params.yaml")
+        with open("BORN", "w") as w:
+            w.write("default\n" + " ".join("%.12f" % x for x in (np.eye(3) * eps).ravel()) + "\n")
+            for b in born:
+                w.write(" ".join("%.12f" % x for x in b.ravel()) + "\n")
+        # a second input: NAC parameters inside the yaml, without unit conversion factor
+        ph.nac_params = {"born": born, "dielectric": np.eye(3) * eps, "factor": u["nac_factor"]}
+        ph.save("params_nac.yaml")
+        txt = open("params_nac.yaml").read().split("\n")
+        k = [i for i, l in enumerate(txt) if l.strip().startswith("unit_conversion_factor:") or l.strip().startswith("nac_unit_conversion_factor:")]
+        yaml_nac = bool(k)
+        if yaml_nac:
+            with open("params_nac.yaml", "w") as w:
+                w.write("\n".join(l for i, l in enumerate(txt) if i not in k))
+        run.count("calculator workflows: %s" % calc, section="oracle")
+
+        def one(variant, infile, extra, lib_kw, born_file):
+            if not born_file and os.path.exists("BORN"):
+                os.rename("BORN", "BORN.off")
+            if born_file and os.path.exists("BORN.off"):
+                os.rename("BORN.off", "BORN")
+            for f in ("qpoints.yaml", "phonopy.yaml"):
+                if os.path.exists(f):
+                    os.remove(f)
+            argv = [infile] + extra + ["--qpoints"] + qtxt.split()
+            if fl.cmd(variant, argv, must=["qpoints.yaml", "phonopy.yaml"]) is None:
+                return
+            y = _yaml("qpoints.yaml")
+            f_cli = np.array([[b["frequency"] for b in p["band"]] for p in y["phonon"]])
+            text = open("qpoints.yaml").read()
+            lib = phonopy.load(infile, log_level=0, **lib_kw)
+            lib.run_qpoints(q)
+            f_lib = lib.get_qpoints_dict()["frequencies"]
+            fl.close_freq("qpoints.yaml frequencies (calculator %s named by the yaml only)" % calc, f_cli, f_lib, 2e-10, argv, klass="yaml-calculator-units-ignored")
+            # unit invariance: the eV/Angstrom description of the same crystal
+            fl.nchecks += 1
+            if np.abs(f_lib - f_ref).max() > 1e-6 * max(1.0, np.abs(f_ref).max()):
+                fl.bad("calculator-units-not-invariant", "library frequencies in %s units differ from the eV/Angstrom description by %.3g" % (
+                    calc, float(np.abs(f_lib - f_ref).max())), argv=argv)
+            # the summary file records the calculator's NAC factor
+            py = _yaml("phonopy.yaml")
+            fac = (py.get("nac") or {}).get("unit_conversion_factor", (py.get("phonopy") or {}).get("nac_unit_conversion_factor"))
+            fl.nchecks += 1
+            if fac is None or abs(float(fac) - u["nac_factor"]) > 2e-6 * max(1.0, u["nac_factor"]):
+                fl.bad("yaml-calculator-units-ignored", "phonopy.yaml records NAC unit_conversion_factor %r, calculator %s has %.7f" % (fac, calc, u["nac_factor"]), argv=argv)
+            # repeating the calculator option must change nothing
+            argv2 = [infile, flag_of[calc]] + extra + ["--qpoints"] + qtxt.split()
+            # (phonopy-load only: `phonopy <yaml> --qe` hands the yaml file to the QE structure reader first)
+            if variant == "load" and fl.cmd(variant, argv2, must=["qpoints.yaml"]) is not None:
+                fl.nchecks += 1
+                if open("qpoints.yaml").read() != text:
+                    y2 = _yaml("qpoints.yaml")
+                    f2 = np.array([[b["frequency"] for b in p["band"]] for p in y2["phonon"]])
+                    fl.bad("yaml-calculator-units-ignored", "`%s` changes qpoints.yaml although the yaml file already names calculator %s (max frequency change %.3g)" % (
+                        flag_of[calc], calc, float(np.abs(f2 - f_cli).max()) if f2.shape == f_cli.shape else float("nan")), argv=argv2)
+
+        one("load", "phonopy_params.yaml", ["--fc-calc", "traditional"], dict(born_filename="BORN", fc_calculator="traditional"), True)
+        one("phonopy", "phonopy_params.yaml", ["--nac"], dict(born_filename="BORN", fc_calculator="traditional", symmetrize_fc=False), True)
+        if yaml_nac:
+            one("load", "params_nac.yaml", ["--fc-calc", "traditional"], dict(fc_calculator="traditional"), False)
+            one("phonopy", "params_nac.yaml", ["--nac"], dict(fc_calculator="traditional", symmetrize_fc=False), False)
+        run.cov["oracle"]["workflow comparisons: " + fl.name] = fl.nchecks
+        os.chdir(tmp)
